@@ -7,7 +7,8 @@ use crate::ug::build::*;
 use serde_json::{Value, json};
 
 pub const CAPTURES: [&str; 10] = ["none", "param", "let", "patvar", "ref", "closure", "topfn", "string-let", "fn-param", "fn-alias"];
-pub const FLOWS: [&str; 17] = [
+pub const FLOWS: [&str; 19] = [
+    "struct-field-second", "struct-field-third",
     "let-call", "rebind", "tuple-elem", "struct-field", "struct-field-direct", "array-elem", "ref-content", "vec-elem", "returned-from-fn",
     "returned-from-closure", "argument", "if-result", "match-result", "generic-apply", "argument-twice", "tuple-direct", "stored-then-passed",
 ];
@@ -212,6 +213,24 @@ pub fn build(caps: &[&str], flow: &str, variant: &str, nesting: usize) -> Option
                 E::Call(Box::new(E::Field(Box::new(v(h)), "f".into())), vec![arg(7)])
             }
         }
+        "struct-field-second" | "struct-field-third" => {
+            // the function-typed field is not the first field of the struct
+            let mut fields = vec![("n".to_string(), Ty::i32())];
+            let mut lit = vec![("n".to_string(), int(1))];
+            if flow == "struct-field-third" {
+                fields.push(("t".into(), Ty::Str));
+                lit.push(("t".into(), s("x")));
+            }
+            fields.push(("f".into(), fn_ty()));
+            lit.push(("f".into(), v(c)));
+            cx.items.push(Item::Struct(StructDef { name: "HolderN".into(), generics: vec![], fields, derives: vec![] }));
+            let h = cx.n.fresh("h");
+            let g = cx.n.fresh("g");
+            b.push(let_(h, E::StructLit("HolderN".into(), lit, vec![])));
+            b.push(st(T6::I32.show(E::Field(Box::new(v(h)), "n".into()))));
+            b.push(let_(g, E::Field(Box::new(v(h)), "f".into())));
+            E::Call(Box::new(v(g)), vec![arg(7)])
+        }
         "array-elem" => {
             let arr = cx.n.fresh("arr");
             let g = cx.n.fresh("g");
@@ -365,7 +384,7 @@ impl Family for Closures {
         &["C08", "C01", "C02", "C03", "C04"]
     }
     fn rule(&self) -> &'static str {
-        "capture sets (all singles over {none, fn param, let, pattern variable, Ref cell, another closure, top-level fn, string let, function-typed parameter called in callee position only, local alias of a top-level fn called in callee position only}; selected pairs in quick, all pairs in thorough) x 17 flows of the closure value from creation to call (let, rebind, tuple element, struct field, array element, Ref content, Vec element, returned from fn, returned from closure, argument, argument called twice, branch result of if/match, generic apply, …) x variants {plain, captured name shadowed after creation, captured Ref mutated from both sides, called twice} x nesting depth 1 (thorough: 1-2). non-trivial = programs whose closure captures at least one variable; distinct = distinct source text"
+        "capture sets (all singles over {none, fn param, let, pattern variable, Ref cell, another closure, top-level fn, string let, function-typed parameter called in callee position only, local alias of a top-level fn called in callee position only}; selected pairs in quick, all pairs in thorough) x 19 flows of the closure value from creation to call (let, rebind, tuple element, struct field in first / second / third position, array element, Ref content, Vec element, returned from fn, returned from closure, argument, argument called twice, branch result of if/match, generic apply, …) x variants {plain, captured name shadowed after creation, captured Ref mutated from both sides, called twice} x nesting depth 1 (thorough: 1-2). non-trivial = programs whose closure captures at least one variable; distinct = distinct source text"
     }
     fn cases(&self, tier: Tier) -> Box<dyn Iterator<Item = Value> + '_> {
         let mut v = Vec::new();
